@@ -41,4 +41,5 @@ def run(rep, fb, tier):
     _pr5.rule_py_highlevel_returns(rep)
     __import__("vf.rules.pyrules3", fromlist=["x"]).rule_py_unused_local(rep)
     __import__("vf.rules.pyrules3", fromlist=["x"]).rule_py_loop_derived(rep)
+    __import__("vf.rules.pyrules5", fromlist=["x"]).rule_py_none_after_loop(rep)
     rep.units = fb.units + ["src/awkward/partition.py, _util.py, operations/structure.py (ast)"]
